@@ -91,6 +91,9 @@ pub struct Plan {
     pub early_salt: u8,
     /// Do not read at all (receiver stalls)
     pub no_read: bool,
+    /// Answer a Stopped event with reset() (as an application that abandons the stream does), so
+    /// that the stream is released and its slot can be granted again
+    pub reset_on_stopped: bool,
     /// Reset the stream of plan index .0 with code .2 at the first drive call that finds at least
     /// .1 bytes in flight (or at the third drive call after Connected)
     pub late_reset: Option<(usize, u64, u32)>,
@@ -415,6 +418,7 @@ impl StdApp {
                 Ok(c) => c,
                 Err(ReadableError::ClosedStream) => {
                     rx.closed_err = true;
+                    viol.push(format!("stream {s}: read() answered ClosedStream although this application has neither seen the end of the stream nor a reset nor stopped it ({} bytes obtained so far)", rx.bytes));
                     break;
                 }
                 Err(ReadableError::IllegalOrderedRead) => {
@@ -599,6 +603,12 @@ impl App for StdApp {
                         let t = self.obs.tx.entry(s).or_default();
                         t.stopped_events.push(error_code.into_inner());
                         t.done_writing = true;
+                        if self.plan.reset_on_stopped && t.reset_called.is_none() && t.finished_events == 0 {
+                            if cx.conn.send_stream(id).reset(error_code).is_ok() {
+                                t.reset_called = Some(error_code.into_inner() as u32);
+                                did = true;
+                            }
+                        }
                         self.active.retain(|x| *x != id);
                     }
                     StreamEvent::Available { dir } => {
